@@ -859,7 +859,9 @@ func (fc *FontConfigurationPango) splitFirstLine(hyphenCache map[HyphenDictKey]h
 		if resumeIndex == 0 {
 			resumeIndex = firstLine.Length
 		}
-		if resumeIndex >= len(text) {
+		if resumeIndex >= len(text) && firstLine.Length >= len(text) {
+			// (when the text ends with a preserved line break the second line
+			// starts at len(text): this is still a break)
 			resumeIndex = -1
 		}
 	}
